@@ -39,7 +39,7 @@ func init() {
 			"lines of length max-3..max are a don't-care band (either stored verbatim or skipped, consistently); only clearly malformed lines (truncated, unbalanced, bare words) must reject the request, grey-zone JSON is judged for all-or-nothing only",
 			"one max-document-size per worker process (the line reader pool keeps its first buffer size, as one process has one setting)",
 		},
-		Batches: tiered(16, 200),
+		Batches: tiered(64, 480),
 		Run:     runC10,
 		Timeout: timeoutFor(8*time.Minute, 40*time.Minute),
 	})
